@@ -11,6 +11,7 @@ import Distill.Model.Render
 import Distill.Gen.Funcs
 import Distill.Gen.Tables
 import Distill.Proofs.Style
+import Distill.Model.Derive
 namespace Distill.C04
 open Distill
 
@@ -130,6 +131,53 @@ theorem visibility_hidden_any_spelling (a name w1 w2 kw b : List Char)
       ∀ c ∈ kw, Style.isWS c = false ∧ c ≠ ':') :
     Style.visHidden (a ++ (name ++ w1 ++ ':' :: w2 ++ kw ++ b)) = true :=
   Style.visHidden_append_left a _ (Style.visHidden_of_visAt _ (Style.visAt_spelled name w1 w2 kw b hn h1 h2 hk))
+
+/-! ### from the written style attribute to silence
+
+With the per-element answers computed by the model from the attributes (`deriveAtoms`, which is how the
+convert / outputnodes / textrender / imageextract correspondence runs), the two chains close: a
+declaration in the style attribute, in any spelling, silences the element. -/
+
+/-- an element whose style attribute is a list of `display` declarations the last of which says
+`none` (no earlier one being important) contributes no builder call at all -/
+theorem display_none_declaration_silences (cfg : CCfg) (A : CAtoms) (anc : List String) (hp : Bool)
+    (i : Nat) (t : String) (attrs : List Attr) (ks : List Node)
+    (hA : A.styleDisplay i = derivedDisplay attrs)
+    (pre : List Style.Decl) (d : Style.Decl) (hwf : ∀ x ∈ pre ++ [d], x.WF) (hpre : ∀ x ∈ pre, x.imp = none)
+    (hstyle : (getAttr attrs "style").toList = Style.render (pre ++ [d]))
+    (hnone : d.value.map Style.lower = "none".toList) :
+    convertNode cfg A anc hp (.elem i t attrs ks) = [] := by
+  apply hidden_element_silent
+  have hd : derivedDisplay attrs = "none" := by
+    unfold derivedDisplay
+    rw [hstyle, last_display_decides pre d hwf hpre, hnone]
+    rfl
+  unfold visible
+  rw [hidden_sem _ (Or.inl (by simp [visAtoms, displayOf, hA, hd]))]
+
+/-- an element whose style attribute contains `visibility: hidden | collapse` in any spelling, anywhere,
+contributes no builder call at all -/
+theorem visibility_declaration_silences (cfg : CCfg) (A : CAtoms) (anc : List String) (hp : Bool)
+    (i : Nat) (t : String) (attrs : List Attr) (ks : List Node)
+    (hA : A.visHidden i = derivedVisHidden attrs)
+    (a name w1 w2 kw b : List Char)
+    (hn : Style.FoldsTo name "visibility".toList) (h1 : Style.AllWS w1) (h2 : Style.AllWS w2)
+    (hk : (Style.FoldsTo kw "hidden".toList ∨ Style.FoldsTo kw "collapse".toList) ∧
+      ∀ c ∈ kw, Style.isWS c = false ∧ c ≠ ':')
+    (hstyle : (getAttr attrs "style").toList = a ++ (name ++ w1 ++ ':' :: w2 ++ kw ++ b)) :
+    convertNode cfg A anc hp (.elem i t attrs ks) = [] := by
+  apply hidden_element_silent
+  have hv : derivedVisHidden attrs = true := by
+    unfold derivedVisHidden
+    rw [hstyle]
+    exact visibility_hidden_any_spelling a name w1 w2 kw b hn h1 h2 hk
+  unfold visible
+  rw [hidden_sem _ (Or.inr (Or.inr (Or.inl (by simp [visAtoms, hA, hv]))))]
+
+/-- `deriveAtoms` supplies exactly the premises `hA` of the two theorems for every element of the tree -/
+theorem derive_supplies (t : Node) (A : CAtoms) (i : Nat) :
+    (deriveAtoms t A).styleDisplay i = derivedDisplay (attrsOf t i) ∧
+    (deriveAtoms t A).visHidden i = derivedVisHidden (attrsOf t i) := ⟨rfl, rfl⟩
 
 /-! non-vacuity -/
 example : Style.display "color:red; DISPLAY :\tNone ! Important ;display:block".toList = some "none".toList := by
